@@ -528,7 +528,7 @@ impl Property for C14 {
         Meta {
             level: "fault_enumeration",
             rule: "each run is a seeded binary (clean, or with 1-2 storage faults so that parse errors occur at known instruction numbers); the all-Continue run is checked against the protocol automaton initialize header instruction* finalize? and the reference acceptor, then every callback position k in {initialize, header, each instruction, finalize, one past the end} x {Stop, Error(unique tag)} is enumerated, plus 0-2 random multi-deviation scripts and the real Loader wrapped in a logging consumer; abstract trace = (fault kinds, result class, number of callbacks); non-trivial = >= 3 callbacks or a fired fault",
-            lanes: "every script also through parse_words (logs and results must agree); consumer errors of type ParseState / dr::Error; ext-inst hot spot; MAGIC fault value; clause finalize-only-complete against the reference acceptor; twelve standard-library error values (io::Error of kind Interrupted / WouldBlock / UnexpectedEof / Other / TimedOut / BrokenPipe / raw EINTR, fmt::Error, Utf8Error, ParseIntError, boxed &str / String) at every callback position; header dictionaries (generator tool ids, version 0.99); surplus payload on operand-less instructions (multi-word OpNop); cut sweep: one clean binary in three is also parsed cut at every word boundary",
+            lanes: "every script also through parse_words (logs and results must agree); consumer errors of type ParseState / dr::Error; ext-inst hot spot; MAGIC fault value; clause finalize-only-complete against the reference acceptor; twelve standard-library error values (io::Error of kind Interrupted / WouldBlock / UnexpectedEof / Other / TimedOut / BrokenPipe / raw EINTR, fmt::Error, Utf8Error, ParseIntError, boxed &str / String) at every callback position; header dictionaries (generator tool ids, version 0.99); surplus payload on operand-less instructions (multi-word OpNop); cut sweep: one clean binary in three is also parsed cut at every word boundary; the library's own DecodeError among the consumer error values; adjacent identical instructions; registered source-extension names",
             triple_measure: "(callback kind at the deviation, action, outcome class of the undisturbed parse)",
             item_measure: "n/a",
             assumptions: &[
